@@ -1,7 +1,20 @@
-(** Property C08 — statements only. Each theorem is closed by [exact] of a lemma
-    proved elsewhere and followed by [Print Assumptions]. *)
-From CR Require Import Base Atomic Machine LinksFacts HeapFacts TraceFacts Local.
+(** Property C08 — adoption bookkeeping exact, symmetric, never naming a dead object. *)
+From Coq Require Import Permutation.
+From CR Require Import Base Atomic Machine LinksFacts HeapFacts TraceFacts TraceTotal Local StackBound
+  Termination Perm StdRc StdRefine Tokens InvDef InvLemmas ActBase ActHandles ActAdopt ActMove ActConsume
+  StepFrames StepPanic Purge GroupOps DropDec Group DropLast StepInv RunInv Consequences Common.
 Local Open Scope N_scope.
+
+(** in every configuration: tables are finite maps with positive counts, every
+    record is visible from both ends with the same multiplicity, both ends of
+    every record are alive, Loopback records are self records *)
+Theorem C08_tables_consistent :
+  forall s k, Inv s k ->
+  heap_wf (heap_of s) /\ symmetric (heap_of s) /\
+  (forall a x kd, 0 < lget (heap_of s) a (x, kd) -> alive s a /\ alive s x) /\
+  (forall a x, 0 < lget (heap_of s) a (x, Loop) -> x = a).
+Proof. exact tables_consistent. Qed.
+Print Assumptions C08_tables_consistent.
 
 Theorem C08_adopt_records_one_pair :
   forall h a b h',
@@ -21,9 +34,15 @@ Theorem C08_unadopt_removes_at_most_one :
 Proof. exact unadopt_counts. Qed.
 Print Assumptions C08_unadopt_removes_at_most_one.
 
-Theorem C08_adopt_keeps_symmetry :
-  forall h same a b h',
-  symmetric h -> adopt h same a b = Ok h' -> (same = true -> a = b) -> symmetric h'.
-Proof. exact adopt_symmetric. Qed.
-Print Assumptions C08_adopt_keeps_symmetry.
+(** records involving an object disappear when it is destroyed *)
+Theorem C08_dying_object_is_purged :
+  forall h o b t h3, TblInv h -> Purge.live_has_table h -> no_foreign_loop h o ->
+  getb h o = Ok b -> links b = Some t -> release_links h o = Ok h3 ->
+  TblInv h3 /\ (forall a kd, lget h3 a (o, kd) = 0) /\ (forall l, lget h3 o l = 0).
+Proof. exact release_links_TblInv. Qed.
+Print Assumptions C08_dying_object_is_purged.
 
+Theorem C08_adopt_and_unadopt_keep_the_invariant :
+  forall h1 h2, act_preserves (AAdopt h1 h2) /\ act_preserves (AUnadopt h1 h2).
+Proof. exact (fun h1 h2 => conj (act_adopt h1 h2) (act_unadopt h1 h2)). Qed.
+Print Assumptions C08_adopt_and_unadopt_keep_the_invariant.
